@@ -20,4 +20,9 @@
 #ifndef VERIF_USERID_HINT
 #define VERIF_USERID_HINT(userid)
 #endif
+/*  VERIF_TOUSER_HINT(touser)   statement after each find_user_by_ip() in tunnel_tun()/handle_full_packet():
+ *                              lets a cell fix the destination slot of a tun/forwarded packet */
+#ifndef VERIF_TOUSER_HINT
+#define VERIF_TOUSER_HINT(touser)
+#endif
 #endif
